@@ -86,10 +86,14 @@ Definition spec_txn (e : entry pat) (fm : field_map) (r : row) (t : stxn) : bool
   let rec := row_fields r in
   let col k := match fm_extract fm k rec with IOk x => x | _ => None end in
   let num k := match fm_decimal fm k rec with IOk x => x | _ => None end in
+  let cell_is_number k := match col k with
+                          | Some s => match str_to_comma_decimal s with IErr _ => false | _ => true end
+                          | None => true
+                          end in
   match expected_amount fm (e_account_type e) rec, col FPayee with
   | Some amount, Some payee0 =>
       let commodity := match col FCommodity with Some c => c | None => cs_primary (e_commodity e) end in
-      let hs := hits (csv_matches re_captures) frag0 (e_rewrite e)
+      let hs := hits (csv_matches re_captures) frag0 (compile (e_rewrite e))
                      {| rc_payee := payee0; rc_category := col FCategory;
                         rc_secondary_commodity := col FSecondaryCommodity |} in
       let default_conv := match num FRate, num FSecondaryAmount, col FSecondaryCommodity with
@@ -110,6 +114,10 @@ Definition spec_txn (e : entry pat) (fm : field_map) (r : row) (t : stxn) : bool
           && odec_same (num FBalance) (sp_balance src) commodity
           && forallb (fun p => match sp_balance p with None => true | Some _ => false end)
                      (if d_neg amount then removelast (st_posts t) else tl (st_posts t))
+          (* every numeric cell of an imported row is a number of okane's grammar: a cell in another
+             notation (6'540.35, 12.50-, 1.234,56) or with trailing junk is refused, not truncated *)
+          && cell_is_number FBalance && cell_is_number FRate && cell_is_number FSecondaryAmount
+          && cell_is_number FCharge
           && match conv with
              | None =>
                  (* C16_counter_posting *)
